@@ -170,6 +170,48 @@ func (b *builder) build(depth, arity int) *spec {
 	return s
 }
 
+// buildRoot: the enumerated shapes, or (wide=W) one non-terminal with W
+// children: symbolic leaves, except one child at an enumerated index that is
+// an arbitrary small subtree.
+func (b *builder) buildRoot() *spec {
+	w := rt.Param("wide", 0)
+	if w == 0 {
+		return b.build(rt.Param("D", 2), rt.Param("A", 2))
+	}
+	s := &spec{kind: 3}
+	special := rt.Choose("special", w)
+	for i := 0; i < w; i++ {
+		if i == special {
+			s.kids = append(s.kids, b.build(1, 2))
+			continue
+		}
+		k := &spec{kind: 0, val: rt.Int64("leaf")}
+		k.node = ast.NewTerminalNode(nil, "T", k.val, parsley.Pos(b.pos), parsley.Pos(b.pos+1))
+		b.pos++
+		k.id = b.next
+		b.next++
+		b.all = append(b.all, k)
+		s.kids = append(s.kids, k)
+	}
+	if b.uniform {
+		s.ikind = b.baseKind
+		if b.nts == b.specialAt {
+			s.ikind = b.specialKind
+		}
+		b.nts++
+	} else {
+		s.ikind = rt.Choose("interp", b.ikinds)
+	}
+	s.ip = &interp{sp: s, log: b.log}
+	s.id = b.next
+	b.next++
+	b.all = append(b.all, s)
+	if w > 8 {
+		rt.Cover("node with more than 8 children")
+	}
+	return s
+}
+
 // attach creates the real non-terminal nodes bottom-up; mk maps the
 // interpreter kind to the interpreter value.
 func attach(s *spec, mk func(s *spec) parsley.Interpreter) {
@@ -203,7 +245,7 @@ func newBuilder(ikinds int) *builder {
 // callback returns true.
 func C13_Walk() {
 	b := newBuilder(1)
-	root := b.build(rt.Param("D", 2), rt.Param("A", 2))
+	root := b.buildRoot()
 	attach(root, func(s *spec) parsley.Interpreter { return s.ip })
 	order := b.all
 	var rootNode parsley.Node = root.node
@@ -248,7 +290,7 @@ func C13_Walk() {
 // interpreter kinds: 0 plain, 1 checker, 2 failing checker, 3 none.
 func C13_StaticCheck() {
 	b := newBuilder(4)
-	root := b.build(rt.Param("D", 2), rt.Param("A", 2))
+	root := b.buildRoot()
 	attach(root, func(s *spec) parsley.Interpreter {
 		switch s.ikind {
 		case 1:
@@ -369,7 +411,7 @@ func transformSpec(s *spec, calls *[]call, failed *int) string {
 // installed. interpreter kinds: 0 plain, 1 transformer, 2 failing transformer, 3 none.
 func C13_Transform() {
 	b := newBuilder(4)
-	root := b.build(rt.Param("D", 2), rt.Param("A", 2))
+	root := b.buildRoot()
 	attach(root, func(s *spec) parsley.Interpreter {
 		switch s.ikind {
 		case 1:
@@ -449,7 +491,7 @@ func evalSpec(s *spec, failed *int, calls *[]call) (int64, bool) {
 // reference fold over the symbolic leaf values. kinds: 0 plain, 1 failing.
 func C13_Evaluate() {
 	b := newBuilder(2)
-	root := b.build(rt.Param("D", 2), rt.Param("A", 2))
+	root := b.buildRoot()
 	attach(root, func(s *spec) parsley.Interpreter {
 		if s.ikind == 1 {
 			s.ip.fail = true
